@@ -176,6 +176,14 @@ func (m *model) opClass(want func(id string) bool) string {
 		if l.nestedAbstract > 0 {
 			hit(findingNestedAbstract)
 		}
+		occ := map[string]int{}
+		for _, oc := range m.levelOccurrences(sets, declared) {
+			occ[oc.key]++
+			if t := oc.typ; occ[oc.key] >= 2 && t.Elem != nil && t.Elem.Elem != nil {
+				// whether normalization merges the occurrences first depends on their surroundings
+				hit(findingMergeNestedList)
+			}
+		}
 		for _, pair := range m.crossMerged(sets, declared) {
 			if t := pair[0].typ; t.Elem != nil && t.Elem.Elem != nil {
 				hit(findingMergeNestedList)
